@@ -37,6 +37,11 @@ def units(tier, seed):
     out = []
     for u in glrsweep.make_units(plan(tier, seed)):
         for ld in u.pop("lexdis"):
+            if ld and u["lexmap"] != "M0":
+                # with overlapping terminals lexical disambiguation itself
+                # decides which tokenisations exist; "sentence prefix" is then
+                # not defined by the grammar alone - outside the oracle
+                continue
             v = dict(u)
             v["ld"] = ld
             out.append(v)
@@ -50,45 +55,96 @@ def ref_trees(an):
         return None
 
 
-def check_glr(ctx, an, s, p, o):
-    st = ctx.stats
+def deviations(an, o):
+    """list of (finding class, what, detail) for one outcome"""
+    out = []
     if o.kind == "syntax":
         if an.sentence:      # some prefix is a sentence
-            ctx.deviation("PREFIX-REJECTED", s,
-                          "SyntaxError although a prefix is a sentence",
-                          {"prefix_ends": [r[2] for r in an.roots]})
-        return
+            out.append(("PREFIX-REJECTED",
+                        "SyntaxError although a prefix is a sentence",
+                        {"prefix_ends": [r[2] for r in an.roots]}))
+        return out, False
     if o.kind != "ok":
-        ctx.deviation(None, s, f"parse ended with {o.brief()}",
-                      {"outcome": o.kind})
-        return
+        return [(None, f"parse ended with {o.brief()}", {"outcome": o.kind})], False
     if not an.sentence:
-        ctx.deviation(None, s, "result although no prefix is a sentence", {})
-        return
+        return [(None, "result although no prefix is a sentence", {})], False
     want = ref_trees(an)
     fv = ForestView(o.value.result)
     got = None if fv.cyclic else fv.trees(K)
     if want is None or got is None:
-        st["uncompared_big"] = st.get("uncompared_big", 0) + 1
-        return
-    if len(an.roots) >= 2:
-        st["nontrivial"] += 1
+        return out, True
     gs = set(got)
     surplus = sorted(gs - want, key=repr)
     missing = sorted(want - gs, key=repr)
     dups = len(got) - len(gs)
     if surplus:
-        ctx.deviation("PREFIX-INVALID-TREE", s,
-                      "forest holds a tree that is not a derivation of a "
-                      "sentence prefix", {"surplus": surplus[:10]})
+        out.append(("PREFIX-INVALID-TREE",
+                    "forest holds a tree that is not a derivation of a "
+                    "sentence prefix", {"surplus": surplus[:10]}))
     if missing:
-        ctx.deviation("PREFIX-MISSING-DERIVATIONS", s,
-                      f"forest lacks {len(missing)} derivations of sentence "
-                      "prefixes", {"missing": missing[:50], "n": len(missing)})
+        out.append(("PREFIX-MISSING-DERIVATIONS",
+                    f"forest lacks {len(missing)} derivations of sentence "
+                    "prefixes", {"missing": missing[:50], "n": len(missing)}))
     if dups:
-        ctx.deviation("PREFIX-DUPLICATE-TREES", s,
-                      "a derivation of a prefix is enumerated more than once",
-                      {"dups": dups, "trees": len(got)})
+        out.append(("PREFIX-DUPLICATE-TREES",
+                    "a derivation of a prefix is enumerated more than once",
+                    {"dups": dups, "trees": len(got)}))
+    return out, False
+
+
+TWINS = {}
+
+
+def keep_stop_twin(ctx, p):
+    """Cause oracle for the finding STOP-DROPPED: the same GLRParser with the
+    end-of-input pseudo token kept out of the longest-match competition (the
+    repair that test_no_consume_input_multiple_trees blocks).  Installed on a
+    twin *instance* from the harness; /repo is untouched."""
+    tw = TWINS.get(id(p))
+    if tw is None:
+        from parglare.grammar import STOP
+        tw = build("glr", grammar_from_string(ctx.text), None,
+                   tables=ctx.table, ws=ctx.u["ws"], **ctx.opts)
+        orig = tw._lexical_disambiguation
+
+        def patched(tokens):
+            stop = [t for t in tokens if t.symbol is STOP]
+            if not stop:
+                return orig(tokens)
+            return stop + orig([t for t in tokens if t.symbol is not STOP])
+        tw._lexical_disambiguation = patched
+        TWINS[id(p)] = (tw, p)       # keep p alive: id stays unique
+        tw = TWINS[id(p)]
+    return tw[0]
+
+
+def check_glr(ctx, an, s, p, o):
+    st = ctx.stats
+    devs, big = deviations(an, o)
+    if big:
+        st["uncompared_big"] = st.get("uncompared_big", 0) + 1
+    if len(an.roots) >= 2:
+        st["nontrivial"] += 1
+    if not devs:
+        return
+    if ctx.opts.get("lexical_disambiguation"):
+        # attribute by intervention: does the deviation vanish (or shrink to a
+        # listed witness of the revisit defect) when STOP survives the
+        # longest-match rule?
+        tw = keep_stop_twin(ctx, p)
+        o2 = parse(tw, s, None)
+        devs2, _ = deviations(an, o2)
+        if devs2 != devs:
+            ks = ctx.judge.known_seen
+            ks["STOP-DROPPED"] = ks.get("STOP-DROPPED", 0) + 1
+            saved = ctx.table
+            ctx.table = f"{saved}+keepstop"
+            for fid, what, detail in devs2:
+                ctx.deviation(fid, s, what + " (with STOP kept)", detail)
+            ctx.table = saved
+            return
+    for fid, what, detail in devs:
+        ctx.deviation(fid, s, what, detail)
 
 
 def run_unit(u):
